@@ -653,9 +653,22 @@ func c13r5(r *R) {
 				} else {
 					b := closureBindings(lit[0])
 					lp, _ := enumPaths(lit[0], 8, 1)
-					okc := len(lp) == 1 && len(lp[0].effects()) == 1 && lp[0].effects()[0] == "(*forwarder.dialerMetrics).close(^0.metrics, ^1)" && len(b) == 2 && b[0] == "$0" && (b[1] == "local:address" || b[1] == "$3")
+					// the effect, with what the literal captured written in: close(<dialer>.metrics, <the dialled address>)
+					eff := ""
+					if len(lp) == 1 && len(lp[0].effects()) == 1 {
+						eff = lp[0].effects()[0]
+						for k := len(b) - 1; k >= 0; k-- {
+							eff = strings.ReplaceAll(eff, fmt.Sprintf("^%d", k), b[k])
+						}
+					}
+					okc := false
+					if rest, ok := strings.CutPrefix(eff, "(*forwarder.dialerMetrics).close($0.metrics, "); ok {
+						x := strings.TrimSuffix(rest, ")")
+						// the address variable (C13.R7 decides that it is the one dial() counted), on this path or merged
+						okc = x == "local:address" || x == "$3" || x == addr || strings.HasPrefix(x, "phi(") && strings.Contains(x, addr)
+					}
 					if !okc {
-						why = append(why, "OnClose does not call close(address) on the dialer's metrics")
+						why = append(why, "OnClose does not call close(address) on the dialer's metrics (it does: "+shorten(eff, 120)+")")
 					}
 					// the captured address is the dialled one
 					bv := bindingValues(lit[0])
